@@ -1,14 +1,16 @@
 #!/usr/bin/env python3
 """copy finished seeded changes from the sub-agents' scratch worktrees into /verif/seeded/"""
 import json, os, shutil, sys
-only = sys.argv[1:]
+only = [a for a in sys.argv[1:] if not a.startswith("--")]
+rnd = [a[8:] for a in sys.argv[1:] if a.startswith("--round=")]
+suffix = ("r%s-" % rnd[0]) if rnd else ""
 for i in range(1, 19):
     pid = "C%02d" % i
     if only and pid not in only:
         continue
     for n in (1, 2, 3):
         src = "/tmp/seed_%s/out/%d" % (pid, n)
-        dst = "/verif/seeded/%s-%d" % (pid, n)
+        dst = "/verif/seeded/%s-%s%d" % (pid, suffix, n)
         if not all(os.path.exists(os.path.join(src, f)) for f in ("patch.diff", "demo.py", "meta.json")) or os.path.exists(dst):
             continue
         os.makedirs(dst)
